@@ -27,6 +27,8 @@ DECIDED = [
     "PURE-2 clean / unmerge write only the linking Section and its children",
     "SIB-5 the relative link is recomputed from the object the link is resolved from (self)",
     "TAB-5 link and include are format keys, readable and constructor keywords (saved after clean)",
+    "PROV-10 the link / include setters store the value they were given",
+    "LOOKUP-1 (shared with C14) path lookup matches names by plain equality",
     "FIN-1 finalize visits every Section of the document and resolves through the public setters",
 ]
 NOT_DECIDED = [
@@ -93,6 +95,25 @@ def run(prog, rep):
            and any(unparse(t) == "%s._merged" % mg.params[0] for t in n.targets)]
     rep.check(len(rem) == 1 and unparse(rem[0].value) == mg.params[1], "SIB-5", "merge remembers its source in _merged", "self._merged = section",
               "merge does not remember the merged Section", mg.where, witness="clean() cannot find what to remove")
+
+    # ---------------------------------------------------------------- PROV-10
+    rep.rule("PROV-10", "the link and include setters store exactly what they were given: every store to _link / _include in them is the "
+                        "value parameter (or the constant None); resolution may split the value but must not store a part of it")
+    for attr in ("link", "include"):
+        st0 = prog.func("section.BaseSection.%s.setter" % attr)
+        rep.saw_function(st0)
+        sx = Expander(st0, inline=prog)
+        stores = [n for n in walk_no_nested(st0.node) if isinstance(n, ast.Assign) and unparse(n.targets[0]) == "%s._%s" % (st0.params[0], attr)]
+        rep.floor("PROV-10", len(stores), 1, "stores to _%s in its setter" % attr)
+        for n in stores:
+            t = sx.text(n.value)
+            rep.check(t in (st0.params[1], "None"), "PROV-10", "%s setter stores its argument" % attr, t,
+                      "the %s setter stores `%s` instead of the value it was given: the stored reference no longer designates the same target" % (attr, t),
+                      where(st0, n), witness="an include 'URL#path' is stored as 'URL': after clean() and a save the reference is incomplete")
+
+    # the reference is resolved through the path lookup: names are matched exactly (shared with C14)
+    from .c14 import exact_name_match
+    exact_name_match(prog, rep, "LOOKUP-1")
 
     # ----------------------------------------------------------------- FIN-1
     rep.rule("FIN-1", "Document.finalize loops over self.itersections(recursive=True) and re-assigns link / include through "
